@@ -172,9 +172,19 @@ func (s *BlockchainRpcTxWatcher) StartBlockWatcher() error {
 
 // HandleCsvTx looks for transactions that have enough confirmations to be spend using the csv path
 func (s *BlockchainRpcTxWatcher) HandleCsvTx(blockheight uint64) error {
-	var toRemove []string
+	// The callback re-enters the swap's state machine and may wait for a swap
+	// that is itself waiting to register with this watcher, so the watcher lock
+	// must not be held while callbacks run. Work on a snapshot of the list.
 	s.Lock()
+	watchList := make(map[string]SwapTxInfo, len(s.csvtxWatchList))
 	for k, v := range s.csvtxWatchList {
+		watchList[k] = *v
+	}
+	callback := s.csvPassedCallback
+	s.Unlock()
+
+	var toRemove []string
+	for k, v := range watchList {
 		res, err := s.blockchain.GetTxOut(v.TxId, v.TxVout)
 		if err != nil {
 			log.Infof("watchlist fetchtx err: %v", err)
@@ -186,10 +196,10 @@ func (s *BlockchainRpcTxWatcher) HandleCsvTx(blockheight uint64) error {
 		if v.Csv > res.Confirmations {
 			continue
 		}
-		if s.csvPassedCallback == nil {
+		if callback == nil {
 			continue
 		}
-		err = s.csvPassedCallback(k)
+		err = callback(k)
 		if err != nil {
 			log.Infof("csv passed callback err: %v. swap id: %s, tx id: %s, starting block height: %d",
 				err, k, v.TxId, v.StartingBlockHeight)
@@ -197,7 +207,6 @@ func (s *BlockchainRpcTxWatcher) HandleCsvTx(blockheight uint64) error {
 		}
 		toRemove = append(toRemove, k)
 	}
-	s.Unlock()
 	s.TxClaimed(toRemove)
 	return nil
 }
@@ -232,29 +241,35 @@ func (l *BlockchainRpcTxWatcher) checkTxAboveCsvHight(txId string, vout, csv uin
 }
 
 func (l *BlockchainRpcTxWatcher) AddWaitForCsvTx(swapId, txId string, vout uint32, startingBlockheight, csv uint32, _ []byte) {
-	// Before we add the tx to the watcher we check if the tx is already
-	// above the csv limit.
-	above, err := l.checkTxAboveCsvHight(txId, vout, csv)
-	if err != nil {
-		log.Infof("[TxWatcher] checkTxAboveCsvHeight returned: %s", err.Error())
-	}
-	if above {
-		err = l.csvPassedCallback(swapId)
-		if err == nil {
-			log.Infof("Swap %s already past CSV limit", swapId)
-			return
-		}
-		log.Infof("csv passed callback error: %v", err)
-	}
-
 	l.Lock()
-	defer l.Unlock()
 	l.csvtxWatchList[swapId] = &SwapTxInfo{
 		TxId:                txId,
 		TxVout:              vout,
 		Csv:                 csv,
 		StartingBlockHeight: startingBlockheight,
 	}
+	l.Unlock()
+
+	// Before waiting for the next block we check if the tx is already above
+	// the csv limit. The callback re-enters the swap's state machine, whose
+	// lock is held by the action that is calling us, so it must not run on
+	// this goroutine.
+	above, err := l.checkTxAboveCsvHight(txId, vout, csv)
+	if err != nil {
+		log.Infof("[TxWatcher] checkTxAboveCsvHeight returned: %s", err.Error())
+		return
+	}
+	if !above {
+		return
+	}
+	go func() {
+		if err := l.csvPassedCallback(swapId); err != nil {
+			log.Infof("csv passed callback error: %v", err)
+			return
+		}
+		log.Infof("Swap %s already past CSV limit", swapId)
+		l.TxClaimed([]string{swapId})
+	}()
 }
 
 func (l *BlockchainRpcTxWatcher) TxClaimed(swaps []string) {
